@@ -316,7 +316,8 @@ class Float(Atomic):
         self.name, self.p, self.emin, self.emax = name, p, emin, emax
         self.maxfinite = (2 ** p - 1) * Fraction(2) ** emax
         self.band_hi = Fraction(2) ** (p + emax)          # values in (maxfinite, 2^(p+emax)): IEEE rounding decides; narrowed (see docs)
-        self.minpos = Fraction(2) ** emin
+        # docs/schema.xml ("out-of-bound float/double values"): below 2^-149 (float) / below DBL_MIN = 2^-1022 (double) is converted to zero
+        self.minpos = Fraction(2) ** (emin if p == 24 else -1022)
 
     def parse(self, lex):
         if not _FLT.match(lex):
